@@ -466,10 +466,16 @@ theorem exDoc_vr : VR true exDoc exDoc' := by
     nr_ok ⟨_, _, rfl, rfl, by decide⟩ ?_ ?_ trivial trivial⟩
   all_goals first | (simp only [NumOK, IntKind.InRange]; decide) | (simp only [NumOK, Dec.Bounded]; decide)
 
-example : RR (VR true) (evaluate exNode exDoc) (evaluate exNode exDoc') := evaluate_congr_fragment exNode_noDiv exDoc_vr
-
+-- both evaluate to `true` (1 + 1.5·2 = 4 < 5)
 example : (match evaluate exNode exDoc, evaluate exNode exDoc' with
     | .ok (.bool b), .ok (.bool b') => b && b' | _, _ => false) = true := by decide
+
+-- (the elaborator would otherwise run the evaluator while looking at the statement below)
+attribute [irreducible] exNode exDoc exDoc'
+
+/-- the theorem applies to that pair of documents -/
+theorem ex_related : RR (VR true) (evaluate exNode exDoc) (evaluate exNode exDoc') :=
+  evaluate_congr_fragment exNode_noDiv exDoc_vr
 
 /-! ## 5. representation lemmas -/
 
